@@ -83,4 +83,27 @@ theorem recorded_error_beats_output (x : Err) (ok : Bool) (v : Nat) :
     callerOutput (some (encErr x)) ok v = (0, some (encErr x)) := by
   simp [callerOutput, aeLoad]
 
+/-! ### the building blocks: what the `unit` ops of the harness are compared with is what the model's steps do -/
+
+/-- a mapper's `Write` is dropped (the collector is untouched, the script goes on) iff the context is over or `done`
+is closed: the model's guard is `guardDrops`. -/
+theorem mapper_write_guard (c : Cfg) (s : St) (i v : Nat) (sc : List UAct) (h : s.mp i = .run (.write v :: sc)) :
+    stepMapper c s i = some (if guardDrops s.ctxDone s.fin then { s with mp := upd s.mp i (.run sc) }
+      else { s with mp := upd s.mp i (.send v sc) }) := by
+  unfold stepMapper guardDrops
+  rw [h]
+  simp only
+  split <;> rfl
+
+/-- the default / clamped / last-wins worker count the `unit opts` op is compared with never is below one, and is the
+default exactly for the empty option list. -/
+theorem workersOf_nil : workersOf [] = defaultWorkersN := rfl
+
+theorem onceRuns_le_one (n : Nat) : onceRuns n ≤ 1 := by unfold onceRuns; split <;> omega
+
+/-- `onceChan`: later writes never replace the first value. -/
+theorem onceChanAfter_append (a : Nat) (vs ws : List Nat) : onceChanAfter (a :: vs ++ ws) = some a := rfl
+
+example : guardDrops true false = true ∧ guardDrops false true = true ∧ guardDrops false false = false := by decide
+
 end GoZero.C10.Props5
